@@ -112,6 +112,33 @@ def t_call_record(facts, res, tier):
         res.inst(k, True, {"paths": c})
     if not n_paths:
         raise AnchorMissing("generate_function_call: no emitting path found")
+    # no stale snapshot: what is written into the tree must not derive from a value read out of it
+    # before a call that can itself record callees (argument evaluation recurses into generate_function_call)
+    mods, calls = mod_summaries(facts)
+    key = "T-CALL-RECORD:no-stale-snapshot"
+    res.inst(key)
+    reported = False
+    for kind, value, st in fn_paths(facts, fn):
+        if reported or is_error_exit(value):
+            continue
+        reads = [i for i, e in enumerate(st.events) if e["kind"] == "fieldread" and e["field"] == "functions_call_tree"]
+        if not reads:
+            continue
+        for k2, e in enumerate(st.events):
+            if e["kind"] == "fieldpush" and e["field"] == "functions_call_tree" and not e.get("via_alias"):
+                derived = any("functions_call_tree" in repr(a) for a in e["args"][1:])
+                if not derived and len(e["node"]["args"]) == 2 and e["node"]["args"][1].get("k") == "path":
+                    lv = e["node"]["args"][1]["segs"][0]
+                    v = st.env.get(lv)
+                    derived = v is not None and "functions_call_tree" in repr(v)
+                if not derived:
+                    continue
+                r0 = min(reads)
+                between = [c for c in st.events[r0:k2] if c["kind"] == "call" and "functions_call_tree" in mods.get(c["callee"], set())]
+                if between:
+                    res.fail(key, facts.where(fn, e["node"]), "generate_function_call writes back a callee list that was read from functions_call_tree before the call to %s, which can record callees itself (calls nested in arguments): their records are overwritten" % between[0]["callee"])
+                    reported = True
+                    break
     # the record is filed under the current function
     key = "T-CALL-RECORD:keyed-by-current-function"
     res.inst(key)
@@ -204,8 +231,26 @@ def t_inuse_closure(facts, res, tier):
         res.fail(key, facts.where(rf), "function_is_actually_in_use does not follow every recorded callee (recursion must be guarded only by the visited test)")
     key = "T-INUSE-CLOSURE:visited-insert"
     res.inst(key)
-    if not any(n.get("k") == "mcall" and n["method"] == "insert" for n in walk(rf["body"])):
+    inserts = [n for n in walk(rf["body"]) if n.get("k") == "mcall" and n["method"] == "insert"]
+    if not inserts:
         res.fail(key, facts.where(rf), "visited functions are not added to the in-use set")
+    # the set that is tested, the set that is extended and the set handed to the recursive call are one and the same:
+    # otherwise the traversal never sees its own progress and does not terminate on a cyclic call graph
+    key = "T-INUSE-CLOSURE:visited-same-set"
+    tested = set()
+    for node, guards in found:
+        for g, pol in guards:
+            m = re.match(r"^(.+)\.get\((\w+)\)\.is_none\(\)$", g.replace(" ", ""))
+            if m and pol:
+                tested.add(m.group(1))
+            m = re.match(r"^!(.+)\.contains\((\w+)\)$", g.replace(" ", ""))
+            if m and pol:
+                tested.add(m.group(1))
+    extended = {expr_text(n["recv"]) for n in inserts}
+    passed = {expr_text(node["args"][1]) for node, _ in found if len(node["args"]) > 1}
+    res.inst(key, True, {"tested": sorted(tested), "extended": sorted(extended), "passed_on": sorted(passed)})
+    if len(tested) != 1 or tested != extended or (passed and tested != passed):
+        res.fail(key, facts.where(rf), "the visited test looks at `%s` but the traversal extends `%s` and passes on `%s`: on a recursive or mutually recursive program the traversal never terminates (stack overflow)" % (", ".join(sorted(tested)) or "?", ", ".join(sorted(extended)) or "?", ", ".join(sorted(passed)) or "?"))
 
 
 # ----------------------------------------------------------------------------- C11
